@@ -13,6 +13,7 @@
  *      SELECT name FROM sqlite_master ...      yields the names of the existing tables (text column)
  *      any other SELECT                        changes nothing (a SELECT never modifies a database); delivering its rows to
  *                                              an sqlite3_exec callback is not modelled (inconclusive when a callback is given)
+ *      SELECT COUNT(*) FROM <t>                yields the number of rows of <t>
  *      BEGIN/COMMIT/END/PRAGMA/VACUUM          succeed, change nothing
  *      anything else                           the model gives up: lsv_sql_unsupported is set and the harness reports the
  *                                              run as inconclusive (never as a violation)
@@ -21,9 +22,13 @@
  *    for the buffer and sqlite3_exec/prepare look the buffer up (this is what keeps symbolic execution tractable: 29 tables
  *    x 100-character statements otherwise). Every other format is expanded character by character (%s copied, a floating
  *    conversion becomes the placeholder "#<id>") and the statement is parsed from those characters. A destination buffer that
- *    is too small for the text makes the model give up.
+ *    is too small truncates the text as the real snprintf does (the model gives up only when a number is involved: the
+ *    placeholder does not have the width of the real digits).
  *  - the value of an INSERT literal is the double that was formatted into it: the "%.18f" conversion and SQLite's decimal
  *    parser are NOT encoded (libc / SQLite internals).
+ *  - locks: a SELECT statement that has returned a row keeps a shared lock until it reaches SQLITE_DONE, is reset or finalized
+ *    (closing the connection does not release it); meanwhile writes through another connection fail with SQLITE_BUSY and
+ *    DROP TABLE through the same connection fails with SQLITE_LOCKED.
  *  - sqlite3_bind_double on a statement without parameters fails with SQLITE_RANGE and changes nothing.
  */
 /* the model is not the code under test: none of CBMC's standard checks is instrumented in this file (they stay on in src/) */
@@ -51,16 +56,21 @@
 #endif
 #define LSV_NAME 40
 
-enum { K_ERR = -1, K_DONE = 0, K_INSERT = 1, K_SELVAL = 2, K_SELNAMES = 3, K_NOP = 4, K_CREATE = 5, K_CREATE_INE = 6, K_DROP = 7, K_DROP_IE = 8, K_DELETE = 9 };
+enum { K_BUSY = -2, K_ERR = -1, K_DONE = 0, K_INSERT = 1, K_SELVAL = 2, K_SELNAMES = 3, K_NOP = 4, K_CREATE = 5, K_CREATE_INE = 6, K_DROP = 7, K_DROP_IE = 8, K_DELETE = 9, K_COUNT = 10 };
 
 struct lsv_table { int used; const char *name; size_t n; double *v; };      /* rows: one allocation per table (keeps the directory small) */
 static struct lsv_table lsv_db[LSV_NPATH][LSV_MAXT];
 int lsv_sql_unsupported = 0;      /* read by the harness */
 int lsv_sql_overflow = 0;         /* model capacity exceeded: also inconclusive */
 
-struct sqlite3 { int path; int open; };
-struct sqlite3_stmt { int kind; int path; int tab; size_t cur; int live; double val; int hasval; };
-static struct sqlite3 lsv_conn[8]; static int lsv_nconn = 0;
+struct sqlite3 { int path; int open; int nactive; };
+struct sqlite3_stmt { int kind; int path; int tab; size_t cur; int live; double val; int hasval; struct sqlite3 *db; int active; };
+/* read locks: a statement that has returned a row and has not yet run to SQLITE_DONE, been reset or been finalized keeps a
+ * shared lock on the file. While ANOTHER connection holds one, a statement that writes fails with SQLITE_BUSY; while the SAME
+ * connection has one, DROP TABLE fails with SQLITE_LOCKED. sqlite3_close does not release the locks of unfinalized statements. */
+static int lsv_active[LSV_NPATH];
+static void set_active(struct sqlite3_stmt *s, int a){ if(s->active != a){ s->active = a; s->db->nactive += a ? 1 : -1; lsv_active[s->path] += a ? 1 : -1; } }
+static int write_blocked(struct sqlite3 *db){ return lsv_active[db->path] - db->nactive > 0; }
 
 /* the statement most recently built by snprintf */
 static struct { char id; int kind; const char *name; double val; int hasval; } lsv_last;      /* id: the record is found again through the CONTENT of the buffer
@@ -89,6 +99,7 @@ static int fmt_lookup(const char *f, size_t *len){
   TPL("CREATE TABLE IF NOT EXISTS %s (id INTEGER PRIMARY KEY AUTOINCREMENT, value REAL);", K_CREATE_INE)
   TPL("SELECT value FROM %s;", K_SELVAL)
   TPL("DROP TABLE IF EXISTS %s;", K_DROP_IE)
+  TPL("SELECT COUNT(*) FROM %s;", K_COUNT) TPL("SELECT COUNT(*) FROM %s", K_COUNT) TPL("SELECT count(*) FROM %s;", K_COUNT)
   TPL("INSERT INTO %s (value) VALUES (%.17g);", K_INSERT) TPL("INSERT INTO %s (value) VALUES (%.17e);", K_INSERT) TPL("INSERT INTO %s (value) VALUES (%.20f);", K_INSERT)
   TPL("INSERT INTO %s (value) VALUES (%f);", K_INSERT) TPL("INSERT INTO %s (value) VALUES (%.18f)", K_INSERT)
   TPL("SELECT value FROM %s", K_SELVAL) TPL("SELECT value FROM %s ORDER BY id;", K_SELVAL) TPL("SELECT value FROM %s ORDER BY id ASC;", K_SELVAL) TPL("SELECT value FROM %s ORDER BY rowid;", K_SELVAL)
@@ -108,23 +119,26 @@ int snprintf(char *buf, size_t size, const char *fmt, ...)
   size_t flen; int tk = fmt_lookup(fmt, &flen);
   if(tk != 0){
     /* a statement template: (kind, name, double) instead of characters; length = text length with a two-character number */
-    const char *name = va_arg(ap, const char *);
+    va_list ap2; va_copy(ap2, ap);
+    const char *name = va_arg(ap2, const char *);
     size_t o = flen - 2 + slen(name);
+    double d = 0;
     if(tk == K_INSERT){
-      double d = va_arg(ap, double);
+      d = va_arg(ap2, double);
       size_t conv = 0; for(size_t i = flen; i > 0; i--) if(fmt[i - 1] == '%'){ conv = flen - (i - 1); break; }   /* "%.18f);" : characters from the last % */
       size_t tail = 0; for(size_t i = flen; i > 0; i--){ char c = fmt[i - 1]; if(c == 'f' || c == 'g' || c == 'e'){ tail = flen - i; break; } }
       o = o - (conv - tail) + 2;
-      if(buf){ lsv_last.val = d; lsv_last.hasval = 1; }
-    } else if(buf) lsv_last.hasval = 0;
-    if(buf){
-      if(size < o + 1) lsv_sql_unsupported = 1;                   /* truncated statement: not modelled */
-      if(size < 3) lsv_sql_unsupported = 1;
-      else { buf[0] = 1; buf[1] = next_id(); buf[2] = 0; }
-      lsv_last.kind = tk; lsv_last.name = name;
     }
-    va_end(ap);
-    return (int)o;
+    va_end(ap2);
+    if(buf == 0){ va_end(ap); return (int)o; }                   /* length query */
+    if(size >= o + 1 && size >= 3){
+      lsv_last.val = d; lsv_last.hasval = (tk == K_INSERT);
+      buf[0] = 1; buf[1] = next_id(); buf[2] = 0;
+      lsv_last.kind = tk; lsv_last.name = name;
+      va_end(ap);
+      return (int)o;
+    }
+    /* destination too small: the text is truncated - expand it character by character below */
   }
   /* general case: expand character by character */
   size_t o = 0; int hasval = 0; double dv = 0;
@@ -143,7 +157,8 @@ int snprintf(char *buf, size_t size, const char *fmt, ...)
     } else { (void)va_arg(ap, long); if(buf && o + 1 < size) buf[o] = '@'; o++; if(buf) lsv_sql_unsupported = 1; }
   }
   if(buf && size > 0) buf[o < size ? o : size - 1] = 0;
-  if(buf){ if(size < o + 1 || hasval > 1) lsv_sql_unsupported = 1; lsv_last.kind = 0; lsv_last.val = dv; lsv_last.hasval = hasval; }
+  if(buf && hasval){ if(size < o + 1 || hasval > 1) lsv_sql_unsupported = 1;      /* a truncated or second number: the placeholder does not have the width of the real text */
+    lsv_last.kind = 0; lsv_last.val = dv; lsv_last.hasval = hasval; }
   va_end(ap);
   return (int)o;
 }
@@ -172,7 +187,7 @@ static int apply(int path, int kind, const char *name, int *tab){
     lsv_db[path][t].used = 0; lsv_db[path][t].n = 0; return K_DONE;
   }
   if(kind == K_DELETE){ if(t < 0) return K_ERR; lsv_db[path][t].n = 0; return K_DONE; }
-  if(kind == K_INSERT || kind == K_SELVAL){ if(t < 0) return K_ERR; *tab = t; return kind; }
+  if(kind == K_INSERT || kind == K_SELVAL || kind == K_COUNT){ if(t < 0) return K_ERR; *tab = t; return kind; }
   return K_ERR;
 }
 /* statement given as text */
@@ -185,6 +200,7 @@ static int parse(const char *sql, const char **name){
   if(starts(sql, "DELETE FROM ")){ *name = ident(skipsp(sql + 12)); return K_DELETE; }
   if(starts(sql, "INSERT INTO ")){ *name = ident(skipsp(sql + 12)); return K_INSERT; }
   if(starts(sql, "SELECT value FROM ")){ *name = ident(skipsp(sql + 18)); return K_SELVAL; }
+  if(starts(sql, "SELECT COUNT(*) FROM ")){ *name = ident(skipsp(sql + 21)); return K_COUNT; }
   if(starts(sql, "SELECT name FROM sqlite_master")) return K_SELNAMES;
   if(starts(sql, "SELECT ")) return K_NOP;
   if(starts(sql, "BEGIN") || starts(sql, "COMMIT") || starts(sql, "END") || starts(sql, "PRAGMA") || starts(sql, "VACUUM")) return K_DONE;
@@ -208,10 +224,10 @@ static int path_of(const char *filename){ return filename[0] == 'B' ? 1 : 0; }  
 
 int sqlite3_open(const char *filename, sqlite3 **ppDb)
 {
-  struct sqlite3 *c = &lsv_conn[lsv_nconn % 8]; lsv_nconn++;
-  c->path = path_of(filename); c->open = 1; *ppDb = c; return SQLITE_OK;
+  struct sqlite3 *c = malloc(sizeof(struct sqlite3)); __CPROVER_assume(c != 0);      /* io.c leaks the connections whose close fails: no fixed pool */
+  c->path = path_of(filename); c->open = 1; c->nactive = 0; *ppDb = c; return SQLITE_OK;
 }
-int sqlite3_close(sqlite3 *db){ if(db) db->open = 0; return SQLITE_OK; }
+int sqlite3_close(sqlite3 *db){ if(db) db->open = 0; return SQLITE_OK; }      /* (fails with SQLITE_BUSY when statements are unfinalized: io.c ignores the result; their locks stay) */
 const char *sqlite3_errmsg(sqlite3 *db){ return "model"; }
 void sqlite3_free(void *p){ }
 
@@ -222,10 +238,14 @@ int sqlite3_exec(sqlite3 *db, const char *sql, int (*cb)(void*,int,char**,char**
   if(errmsg) *errmsg = 0;
   if(k == K_SELNAMES || k == K_NOP){ if(k == K_SELNAMES && cb != 0) lsv_sql_unsupported = 1; return SQLITE_OK; }   /* SELECT: nothing is modified; io.c's callback ignores its rows */
   if(k == K_DONE) return SQLITE_OK;
+  if(k != K_SELVAL && k != K_COUNT){                            /* a statement that writes */
+    if(write_blocked(db)) return SQLITE_BUSY;
+    if((k == K_DROP || k == K_DROP_IE) && db->nactive > 0) return SQLITE_LOCKED;
+  }
   k = apply(db->path, k, name, &tab);
   if(k == K_ERR) return SQLITE_ERROR;
   if(k == K_INSERT){ if(hasval == 1) do_insert(db->path, tab, val); else lsv_sql_unsupported = 1; }
-  if(k == K_SELVAL && cb != 0) lsv_sql_unsupported = 1;
+  if((k == K_SELVAL || k == K_COUNT) && cb != 0) lsv_sql_unsupported = 1;
   return SQLITE_OK;
 }
 
@@ -235,9 +255,9 @@ int sqlite3_prepare_v2(sqlite3 *db, const char *sql, int nByte, sqlite3_stmt **p
   struct sqlite3_stmt *s = malloc(sizeof(struct sqlite3_stmt));      /* io.c does not finalize its SELECT statements: no fixed pool */
   __CPROVER_assume(s != 0);
   int k = statement(sql, &name, &val, &hasval);
-  s->path = db->path; s->tab = -1; s->cur = 0; s->live = 1; s->hasval = 0; s->val = 0;
+  s->path = db->path; s->tab = -1; s->cur = 0; s->live = 1; s->hasval = 0; s->val = 0; s->db = db; s->active = 0;
   if(k == K_SELNAMES || k == K_NOP || k == K_DONE){ s->kind = k == K_SELNAMES ? K_SELNAMES : K_NOP; *ppStmt = s; return SQLITE_OK; }
-  if(k != K_INSERT && k != K_SELVAL){ lsv_sql_unsupported = 1; s->kind = K_NOP; *ppStmt = s; return SQLITE_OK; }   /* DDL through prepare/step: not modelled */
+  if(k != K_INSERT && k != K_SELVAL && k != K_COUNT){ lsv_sql_unsupported = 1; s->kind = K_NOP; *ppStmt = s; return SQLITE_OK; }   /* DDL through prepare/step: not modelled */
   k = apply(db->path, k, name, &tab);
   if(k == K_ERR){ *ppStmt = 0; return SQLITE_ERROR; }
   s->kind = k; s->tab = tab;
@@ -248,13 +268,16 @@ int sqlite3_bind_double(sqlite3_stmt *s, int idx, double v){ return SQLITE_RANGE
 int sqlite3_step(sqlite3_stmt *s)
 {
   if(s == 0 || !s->live) return SQLITE_MISUSE;
-  if(s->kind == K_INSERT){ if(s->hasval){ do_insert(s->path, s->tab, s->val); s->hasval = 0; } return SQLITE_DONE; }
-  if(s->kind == K_SELVAL){ if(s->cur < lsv_db[s->path][s->tab].n){ s->cur++; return SQLITE_ROW; } return SQLITE_DONE; }
-  if(s->kind == K_SELNAMES){ while(s->cur < LSV_MAXT && !lsv_db[s->path][s->cur].used) s->cur++; if(s->cur < LSV_MAXT){ s->cur++; return SQLITE_ROW; } return SQLITE_DONE; }
+  if(s->kind == K_INSERT){ if(write_blocked(s->db)) return SQLITE_BUSY; if(s->hasval){ do_insert(s->path, s->tab, s->val); s->hasval = 0; } return SQLITE_DONE; }
+  if(s->kind == K_SELVAL){ if(s->cur < lsv_db[s->path][s->tab].n){ s->cur++; set_active(s, 1); return SQLITE_ROW; } set_active(s, 0); return SQLITE_DONE; }
+  if(s->kind == K_COUNT){ if(s->cur == 0){ s->cur = 1; set_active(s, 1); return SQLITE_ROW; } set_active(s, 0); return SQLITE_DONE; }
+  if(s->kind == K_SELNAMES){ while(s->cur < LSV_MAXT && !lsv_db[s->path][s->cur].used) s->cur++; if(s->cur < LSV_MAXT){ s->cur++; set_active(s, 1); return SQLITE_ROW; } set_active(s, 0); return SQLITE_DONE; }
   return SQLITE_DONE;
 }
-double sqlite3_column_double(sqlite3_stmt *s, int col){ if(s->kind == K_SELVAL && s->cur >= 1) return lsv_db[s->path][s->tab].v[s->cur - 1]; lsv_sql_unsupported = 1; return 0.0; }
+double sqlite3_column_double(sqlite3_stmt *s, int col){ if(s->kind == K_SELVAL && s->cur >= 1) return lsv_db[s->path][s->tab].v[s->cur - 1]; if(s->kind == K_COUNT && s->cur == 1) return (double)lsv_db[s->path][s->tab].n; lsv_sql_unsupported = 1; return 0.0; }
+sqlite3_int64 sqlite3_column_int64(sqlite3_stmt *s, int col){ if(s->kind == K_COUNT && s->cur == 1) return (sqlite3_int64)lsv_db[s->path][s->tab].n; lsv_sql_unsupported = 1; return 0; }
+int sqlite3_column_int(sqlite3_stmt *s, int col){ return (int)sqlite3_column_int64(s, col); }
 const unsigned char *sqlite3_column_text(sqlite3_stmt *s, int col){ if(s->kind == K_SELNAMES && s->cur >= 1) return (const unsigned char *)lsv_db[s->path][s->cur - 1].name; lsv_sql_unsupported = 1; return (const unsigned char *)""; }
-int sqlite3_finalize(sqlite3_stmt *s){ if(s){ s->live = 0; free(s); } return SQLITE_OK; }
-int sqlite3_reset(sqlite3_stmt *s){ if(s) s->cur = 0; return SQLITE_OK; }
+int sqlite3_finalize(sqlite3_stmt *s){ if(s){ set_active(s, 0); s->live = 0; free(s); } return SQLITE_OK; }
+int sqlite3_reset(sqlite3_stmt *s){ if(s){ set_active(s, 0); s->cur = 0; } return SQLITE_OK; }
 #pragma CPROVER check pop
